@@ -840,21 +840,47 @@ func vsixObs(data []byte) ([]sigObs, error) {
 
 // ---- OpenPGP ---------------------------------------------------------------------------------
 
-func knownKeyring() openpgp.EntityList {
-	var names []string
-	for n := range M.PGP {
-		names = append(names, n)
+// judgeSig: the "embedded key" of an OpenPGP signature is the issuer it names
+// (issuer key id and/or issuer fingerprint subpacket); the signature value is
+// verified under exactly that key packet - a primary key or a subkey - with
+// go-crypto's packet layer, without any key-selection or usage-flag policy.
+func judgeSig(part string, sig *packet.Signature, signed []byte) sigObs {
+	o := sigObs{Part: part, PGP: true}
+	switch {
+	case sig.IssuerKeyId != nil:
+		o.PGPKeyID = *sig.IssuerKeyId
+		// a version 4 key's id is the low 64 bits of its fingerprint: both subpackets name one key
+		if len(sig.IssuerFingerprint) == 20 && binary.BigEndian.Uint64(sig.IssuerFingerprint[12:]) != o.PGPKeyID {
+			o.Problems = append(o.Problems, "issuer-key-id-and-issuer-fingerprint-name-different-keys")
+		}
+	case len(sig.IssuerFingerprint) >= 8:
+		o.PGPKeyID = binary.BigEndian.Uint64(sig.IssuerFingerprint[len(sig.IssuerFingerprint)-8:])
+	default:
+		o.Problems = append(o.Problems, "signature-packet-names-no-issuer")
 	}
-	sort.Strings(names)
-	var el openpgp.EntityList
-	for _, n := range names {
-		el = append(el, M.PGP[n])
+	pub, ok := M.PGPPub[o.PGPKeyID]
+	if !ok {
+		o.VerifyErr = fmt.Errorf("issuer %016x is not a key known to the harness", o.PGPKeyID)
+		o.Problems = append(o.Problems, "issuer-unknown")
+		return o
 	}
-	return el
+	// the document goes through the text canonicaliser, the signature trailer
+	// (which VerifySignature appends) must not: it may contain 0x0a (SHA-512's id)
+	if !sig.Hash.Available() {
+		o.VerifyErr = fmt.Errorf("digest algorithm %d not available", sig.Hash)
+		return o
+	}
+	h := sig.Hash.New()
+	var w io.Writer = h
+	if sig.SigType == packet.SigTypeText {
+		w = openpgp.NewCanonicalTextHash(h)
+	}
+	w.Write(signed)
+	o.VerifyErr = pub.VerifySignature(h, sig)
+	return o
 }
 
-// pgpDetachedObs: one observation per signature packet; the "embedded key" of
-// an OpenPGP signature is the issuer it names.
+// pgpDetachedObs: one observation per signature packet.
 func pgpDetachedObs(part string, sigPackets, signed []byte) ([]sigObs, error) {
 	rd := packet.NewReader(bytes.NewReader(sigPackets))
 	var out []sigObs
@@ -870,31 +896,7 @@ func pgpDetachedObs(part string, sigPackets, signed []byte) ([]sigObs, error) {
 		if !ok {
 			continue
 		}
-		o := sigObs{Part: part, PGP: true}
-		if sig.IssuerKeyId != nil {
-			o.PGPKeyID = *sig.IssuerKeyId
-		} else if len(sig.IssuerFingerprint) >= 8 {
-			o.PGPKeyID = binary.BigEndian.Uint64(sig.IssuerFingerprint[len(sig.IssuerFingerprint)-8:])
-		} else {
-			o.Problems = append(o.Problems, "signature-packet-names-no-issuer")
-		}
-		name, ok := M.PGPByID[o.PGPKeyID]
-		if !ok {
-			o.VerifyErr = fmt.Errorf("issuer %016x is not a key known to the harness", o.PGPKeyID)
-			o.Problems = append(o.Problems, "issuer-unknown")
-			out = append(out, o)
-			continue
-		}
-		// the document goes through the text canonicaliser, the signature trailer
-		// (which VerifySignature appends) must not: it may contain 0x0a (SHA-512's id)
-		h := sig.Hash.New()
-		var w io.Writer = h
-		if sig.SigType == packet.SigTypeText {
-			w = openpgp.NewCanonicalTextHash(h)
-		}
-		w.Write(signed)
-		o.VerifyErr = M.PGP[name].PrimaryKey.VerifySignature(h, sig)
-		out = append(out, o)
+		out = append(out, judgeSig(part, sig, signed))
 	}
 	if len(out) == 0 {
 		return nil, fmt.Errorf("%s: no signature packet", part)
@@ -925,32 +927,60 @@ func clearsignObs(part string, data []byte) ([]sigObs, error) {
 	return pgpDetachedObs(part, pk, blk.Bytes)
 }
 
+// pgpInlineObs: a signed message is [compressed(] one-pass signature, literal
+// data, signature [)]; read packet by packet, the signature is judged like a
+// detached one over the literal body.
 func pgpInlineObs(part string, data []byte) ([]sigObs, error) {
 	raw, err := dearmor(data)
 	if err != nil {
 		return nil, err
 	}
-	md, err := openpgp.ReadMessage(bytes.NewReader(raw), knownKeyring(), nil, nil)
-	if err != nil {
-		return nil, err
-	}
-	if _, err := io.Copy(io.Discard, md.UnverifiedBody); err != nil {
-		return nil, err
-	}
-	if !md.IsSigned {
-		return nil, errors.New("message is not signed")
-	}
-	o := sigObs{Part: part, PGP: true, PGPKeyID: md.SignedByKeyId}
-	if md.SignedBy == nil {
-		o.VerifyErr = fmt.Errorf("issuer %016x is not a key known to the harness", md.SignedByKeyId)
-		o.Problems = append(o.Problems, "issuer-unknown")
-	} else {
-		o.VerifyErr = md.SignatureError
-		if md.Signature == nil && md.SignatureError == nil {
-			o.VerifyErr = errors.New("no signature packet after the literal data")
+	rd := packet.NewReader(bytes.NewReader(raw))
+	var body []byte
+	var haveBody bool
+	var sigs []*packet.Signature
+	for depth := 0; ; {
+		p, err := rd.Next()
+		if err == io.EOF {
+			break
+		}
+		if err != nil {
+			return nil, fmt.Errorf("%s: %w", part, err)
+		}
+		switch p := p.(type) {
+		case *packet.Compressed:
+			if depth++; depth > 4 {
+				return nil, errors.New("compressed packets nested too deeply")
+			}
+			if err := rd.Push(p.Body); err != nil {
+				return nil, err
+			}
+		case *packet.LiteralData:
+			if haveBody {
+				return nil, errors.New("more than one literal data packet")
+			}
+			if body, err = io.ReadAll(io.LimitReader(p.Body, 64<<20)); err != nil {
+				return nil, err
+			}
+			haveBody = true
+		case *packet.Signature:
+			if !haveBody {
+				return nil, errors.New("signature packet before the literal data")
+			}
+			sigs = append(sigs, p)
 		}
 	}
-	return []sigObs{o}, nil
+	if !haveBody {
+		return nil, errors.New("message has no literal data")
+	}
+	if len(sigs) == 0 {
+		return nil, errors.New("message is not signed")
+	}
+	var out []sigObs
+	for _, sig := range sigs {
+		out = append(out, judgeSig(part, sig, body))
+	}
+	return out, nil
 }
 
 // arMembers reads a System V / Debian ar archive.
